@@ -4,18 +4,26 @@
   Property theorems over the scanner model GLua/Model/Lexer.lean (a transcription of /repo/parse/lexer.go, tied to
   the code by the token-stream correspondence on every run: real `Scanner.Scan` vs `Lexer.lex`, exact including
   line, column, PNewLine and the error value).  The reference is GLua/Spec/LexSpec.lean (Lua 5.1 manual §2.1).
-  Lemmas live in GLua/Proofs/Lexer.lean and GLua/Proofs/LexerLit.lean.
+  The rendering side of the round trip (tokens in a chosen spelling, separators, layouts, well-formedness) is
+  GLua/Spec/LexRender.lean.  Lemmas live in GLua/Proofs/Lexer*.lean.
 
   What is NOT a theorem here (observed on the real code only, see notes/C08.md): the goyacc driver, the compiler's
-  diagnostics, layout invariance of the compiled prototype.
+  diagnostics, layout invariance of the compiled prototype (the round trip below is layout irrelevance at the level of
+  the token stream the parser receives).
 -/
 import GLua.Proofs.Lexer
 import GLua.Proofs.LexerLit
 import GLua.Proofs.LexerBlank
+import GLua.Proofs.LexerRT
+import GLua.Proofs.LexerRTLong
+import GLua.Proofs.LexerLineEnds
+import GLua.Proofs.LexerRTSep
+import GLua.Proofs.LexerRTPnl
 
 namespace GLua.Props.C08
 open GLua GLua.Lexer
 open GLua.LexSpec (lineMap)
+open GLua.LexRender
 
 /-! ## never hangs -/
 
@@ -152,10 +160,8 @@ example : (∀ b ∈ ([97, 61, 91, 91] : List UInt8), Plain b ∧ b ≠ 93) ∧
 
 /-! ## layout: blanks
 
-  `lex_render_roundtrip` (for every token list and every choice of separators, lexing the rendering gives back the
-  tokens) is NOT proved; what is proved is its blank-skipping core, for runs of blanks of any length and any mix of
-  space, tab, form feed, vertical tab, LF, CR (hence CRLF and LFCR).  Comments, token fusion and the token scanners'
-  independence of positions are covered by the correspondence and the Impl-vs-Impl layout check only. -/
+  The blank-skipping core of the round trip (the round trip itself follows below): runs of blanks of any length and
+  any mix of space, tab, form feed, vertical tab, LF, CR (hence CRLF and LFCR). -/
 
 /-- **blank_run_skipped** — whatever run of blanks precedes a token's first byte `c`, the prologue of `Scan` hands
     exactly `c` to the token switch with the unread input right behind it: blanks never eat token bytes and never
@@ -187,5 +193,261 @@ example : (∀ b ∈ ([32, 13, 10, 9, 10, 13, 12, 11, 13] : List UInt8), IsBlank
   intro b hb
   simp only [List.mem_cons, List.mem_nil_iff, or_false] at hb
   rcases hb with rfl | rfl | rfl | rfl | rfl | rfl | rfl | rfl | rfl <;> (unfold IsBlank; decide)
+
+/-! ## layout: the round trip `lex (render toks layout) = toks`
+
+  `render` (GLua/Spec/LexRender.lean, written from the manual) spells a token list — names, keywords, every operator,
+  numerals (decimal, fraction, exponent, hexadecimal), quoted strings character by character (raw bytes, escapes, `\ddd`,
+  backslash-line end), long strings of any level — with arbitrary separators between the tokens: blanks, line ends,
+  short comments, long comments of any level.  `WF` is the decidable well-formedness predicate: tokens of the grammar,
+  separators of the grammar, and at least one separator wherever two adjacent tokens would otherwise merge
+  (`needSep`, the reference lexer's maximal munch).
+
+  The expected stream gives, token by token, the scanner's token type (`tokType`: goyacc number or character), the
+  token value (`tokStr` = `ast.Token.Str`: spelling, or the denoted bytes of a string; the single dot has an empty
+  `Str` in lexer.go) and the number of bytes rendered before the token; `expectLines` gives the line: 1 + the number
+  of line ends (CR, LF, CRLF, LFCR each once) in the text rendered before the token. -/
+
+/-- the token stream `Lexer.Lex` has to produce for `render toks lay`: (type, value, offset), EOF last. -/
+def expect (toks : List RTok) (lay : Layout) : List (Int × List UInt8 × Nat) := expectFrom lay 0 0 toks
+
+/-- the lines of that stream: 1 + number of line ends rendered before the token; the EOF token has `Line = EOF`. -/
+def expectLines (toks : List RTok) (lay : Layout) : List Int := linesFrom lay 0 [] toks
+
+/-- lexing the rendering gives back the token list: no lexical error, the expected (type, value, offset) stream,
+    the expected lines. -/
+def RoundTrip (toks : List RTok) (lay : Layout) : Prop :=
+  (lex (render toks lay)).err = none ∧
+  (lex (render toks lay)).toks.map view = expect toks lay ∧
+  (lex (render toks lay)).toks.map (fun p => p.1.line) = expectLines toks lay
+
+/-- **lex_render_roundtrip_full** — the full statement: for every token list and every layout that are well-formed
+    by the Lua 5.1 lexical grammar, lexing the rendering gives back the token list. -/
+def lex_render_roundtrip_full : Prop := ∀ (toks : List RTok) (lay : Layout), WF toks lay = true → RoundTrip toks lay
+
+/-- the layout of the witness: the short comment `--[=` ended by a line feed, in front of the end of the text. -/
+def bracketEqLayout : Layout := fun _ => [.short [91, 61] (some 10)]
+
+/-- **lex_render_roundtrip_full_fails** — the full statement is false of the scanner (known finding
+    `C08-short-comment-bracket-eq`): the text `--[=` + line feed is an empty token list with one short comment for
+    Lua 5.1, the scanner reports the lexical error "invalid multiline comment". -/
+theorem lex_render_roundtrip_full_fails : ¬ lex_render_roundtrip_full := by
+  intro h
+  have hw : WF [] bracketEqLayout = true := by decide +kernel
+  obtain ⟨h1, _⟩ := h [] bracketEqLayout hw
+  exact lex_bracketEq_witness h1
+
+/-- **lex_render_roundtrip_partial** — the round trip for every well-formed token list and layout outside the
+    guarded class: no short comment (of the gaps 0 … n) has a text starting with `[=` (`noBracketEq`, decidable).
+    Unbounded in the number and length of tokens and separators. -/
+theorem lex_render_roundtrip_partial (toks : List RTok) (lay : Layout) (hwf : WF toks lay = true)
+    (hg : noBracketEq lay toks.length = true) : RoundTrip toks lay := by
+  have hw := wfFrom_wf lay toks 0 none hwf
+  have hT : ∀ t ∈ toks, ∀ r, follow t r = true → TokScan t r :=
+    fun t ht r hf => tokScan_all t (hw t ht) r hf
+  have hG : ∀ j, 0 ≤ j → j ≤ 0 + toks.length → GapScan (lay j) := by
+    intro j _ hj x hx hxw hc r hr
+    have : bracketEq x = false := by
+      simp only [noBracketEq, List.all_eq_true, List.mem_range, Bool.not_eq_true'] at hg
+      exact hg j (by omega) x hx
+    exact commentScan_all x hxw this hc r hr
+  obtain ⟨h1, h2, h3⟩ := lexAll_render (render toks lay) lay toks 0 none 0 (initSc (render toks lay)) hT hG hwf
+    (restInv_init _) rfl
+  refine ⟨h1, h2, ?_⟩
+  exact lines_of_view lay (render toks lay) toks 0 [] (lex (render toks lay)).toks rfl h2
+    (lex_line_ends (render toks lay)) h3
+
+/-- non-vacuity: a token list with every kind of token and a layout with every kind of separator, CR LF / LF CR
+    pairs split over a comment's line end and a blank, a `-` token followed by a blank and a comment, an unterminated
+    comment at the end:
+
+        --[[x]]<LF>local x=1-<CR>--h<LF><CR>"a\n\255\<CR><LF>"[=[<LF><LF>]]]=] 1.5e-3 0xF--      -/
+def exToks : List RTok := [.kw "local", .name [120], .sym [61], .num (.dec [49]), .sym [45],
+  .str 34 [.raw 97, .esc 110, .dec 255, .nl [13, 10]], .lstr 1 [10] [10, 93, 93],
+  .num (.flt [49] (some [53]) (some ⟨101, some 45, [51]⟩)), .num (.hex 120 [70])]
+
+def exLay : Layout := fun i =>
+  if i = 0 then [.long 0 [120], .blank 10] else if i = 1 then [.blank 32] else if i = 2 then []
+  else if i = 5 then [.blank 13, .short [104] (some 10), .blank 13] else if i = 9 then [.short [] none]
+  else if i ≥ 7 then [.blank 32] else []
+
+example : WF exToks exLay = true ∧ noBracketEq exLay exToks.length = true := by decide +kernel
+
+/-- … and what the theorem then says about it: the lines (CR, LF CR, CR LF each count once), the values of the two
+    strings, the offsets. -/
+example : expectLines exToks exLay = [2, 2, 2, 2, 2, 4, 5, 7, 7, -1] ∧
+    (expect exToks exLay).map (fun e => e.2.2) = [8, 14, 15, 16, 17, 24, 36, 47, 54, 59] ∧
+    ((expect exToks exLay).map (fun e => e.2.1)).drop 5 =
+      [[97, 10, 255, 10], [10, 93, 93], [49, 46, 53, 101, 45, 51], [48, 120, 70], []] := by
+  decide +kernel
+
+/-- the Spec's own reference lexer (GLua/Spec/LexSpec.lean) reads the same values on the same lines from that
+    rendering (a sample that `render` / `WF` describe texts of the grammar, not a theorem). -/
+example : (match LexSpec.lex (render exToks exLay) with
+    | .ok l => some (l.map (fun (t : LexSpec.STok) => (t.text, (t.line : Int))))
+    | _ => none) = some ((exToks.map tokStr).zip ((expectLines exToks exLay).take 9)) := by decide +kernel
+
+/-- **lex_line_ends** — for every input (not only renderings) and every token other than EOF: the token's line is
+    1 + the number of line terminators (\n, \r, \r\n, \n\r — each counts once) in the text before its first byte. -/
+theorem lex_line_ends (input : List UInt8) :
+    ∀ p ∈ (lex input).toks, 0 ≤ p.1.type → p.1.line = 1 + (lineEnds (input.take p.1.off) : Int) :=
+  GLua.Lexer.lex_line_ends input
+
+example : lineEnds [97, 13, 10, 98, 10, 13, 10, 99, 13, 13] = 5 := by decide +kernel
+
+/-- **string_contents_arbitrary** — string contents are arbitrary bytes: every byte string has a well-formed quoted
+    spelling (`canonChar`: raw where the grammar allows, `\\ddd` otherwise) whose token value is that byte string, and
+    every byte string without CR (long brackets normalise CR away) has a well-formed long-bracket spelling; by the
+    round trip they lex back to exactly these bytes, in any layout. -/
+theorem string_contents_arbitrary (content : List UInt8) :
+    ((RTok.str 34 (content.map (canonChar 34))).wf = true ∧
+      tokStr (RTok.str 34 (content.map (canonChar 34))) = content) ∧
+    (content.all (fun b => b != 13) = true →
+      (RTok.lstr (content.length + 1) (if content.head? = some 10 then [10] else []) content).wf = true ∧
+      tokStr (RTok.lstr (content.length + 1) (if content.head? = some 10 then [10] else []) content) = content) :=
+  ⟨canonStr_wf 34 (Or.inl rfl) content, canonLstr_wf content⟩
+
+/-! ### layout irrelevance -/
+
+/- `lexTV input` (Proofs/LexerRTSep.lean) is the layout-independent part of the token stream of `input`: the list of
+   (type, value) pairs. -/
+
+/-- **layout_irrelevant_full** — two well-formed layouts of the same token list lex without error to the same
+    (type, value) stream. -/
+def layout_irrelevant_full : Prop :=
+  ∀ (toks : List RTok) (lay₁ lay₂ : Layout), WF toks lay₁ = true → WF toks lay₂ = true →
+    (lex (render toks lay₁)).err = none ∧ (lex (render toks lay₂)).err = none ∧
+    lexTV (render toks lay₁) = lexTV (render toks lay₂)
+
+/-- false of the scanner for the same reason: the empty text and `--[=` + line feed are two layouts of the empty
+    token list; the second is a lexical error. -/
+theorem layout_irrelevant_full_fails : ¬ layout_irrelevant_full := by
+  intro h
+  have hw : WF [] bracketEqLayout = true := by decide +kernel
+  obtain ⟨_, h2, _⟩ := h [] (fun _ => []) bracketEqLayout (by decide +kernel) hw
+  exact lex_bracketEq_witness h2
+
+/-- **layout_irrelevant_partial** — outside the guarded class, layout is irrelevant at the token level: whatever
+    blanks, line ends and comments separate the tokens, the scanner delivers the same types and values (namely those
+    of the token list), without error. -/
+theorem layout_irrelevant_partial (toks : List RTok) (lay₁ lay₂ : Layout)
+    (hw₁ : WF toks lay₁ = true) (hw₂ : WF toks lay₂ = true)
+    (hg₁ : noBracketEq lay₁ toks.length = true) (hg₂ : noBracketEq lay₂ toks.length = true) :
+    (lex (render toks lay₁)).err = none ∧ (lex (render toks lay₂)).err = none ∧
+    lexTV (render toks lay₁) = lexTV (render toks lay₂) ∧
+    lexTV (render toks lay₁) = toks.map (fun t => (tokType t, tokStr t)) ++ [(-1, [])] := by
+  obtain ⟨a1, a2, _⟩ := lex_render_roundtrip_partial toks lay₁ hw₁ hg₁
+  obtain ⟨b1, b2, _⟩ := lex_render_roundtrip_partial toks lay₂ hw₂ hg₂
+  have key : ∀ lay, (lex (render toks lay)).toks.map view = expect toks lay →
+      lexTV (render toks lay) = toks.map (fun t => (tokType t, tokStr t)) ++ [(-1, [])] := by
+    intro lay hv
+    have := congrArg (List.map (fun e : Int × List UInt8 × Nat => (e.1, e.2.1))) hv
+    rw [expect, expectFrom_types] at this
+    rw [← this]
+    simp [lexTV, view]
+  exact ⟨a1, b1, by rw [key lay₁ a2, key lay₂ b2], key lay₁ a2⟩
+
+/-! ### the separators `WF` demands are necessary — except behind numerals -/
+
+/-- **needSep_necessary_full** — where the grammar's maximal munch demands a separator (`needSep a b`), writing the
+    two tokens without one does not read as the two tokens: the scanner must not find `a`, `b` in `a.render ++ b.render`
+    (the reference lexer reads something else, or rejects the text). -/
+def needSep_necessary_full : Prop :=
+  ∀ a b : RTok, a.wf = true → b.wf = true → needSep a b = true →
+    ¬ ((lex (a.render ++ b.render)).err = none ∧ lexTV (a.render ++ b.render) = twoTokens a b)
+
+/-- **needSep_necessary_full_fails** — false of the scanner (known finding `C08-numeral-followed-by-letter`): `3b` is
+    one malformed number for Lua 5.1 (so `3` and `b` need a separator), the scanner delivers the numeral `3` and
+    the name `b` without error. -/
+theorem needSep_necessary_full_fails : ¬ needSep_necessary_full := by
+  intro h
+  exact h (.num (.dec [51])) (.name [98]) (by decide +kernel) (by decide +kernel) (by decide +kernel) lex_3b
+
+/-- the guarded class: the first token is a numeral. -/
+def isNumeral : RTok → Bool
+  | .num _ => true
+  | _ => false
+
+/-- **needSep_necessary_partial** — outside the guarded class (the first token is not a numeral) the scanner agrees
+    with the grammar: two tokens that need a separator, written without one, never lex to the two tokens (a name or
+    keyword swallows the alphanumerics that follow; `=` `<` `>` `:` `.` `..` combine with what follows; `--` starts a
+    comment; `[[` / `[=` start a long bracket). -/
+theorem needSep_necessary_partial (a b : RTok) (ha : a.wf = true) (hb : b.wf = true) (hn : needSep a b = true)
+    (hg : isNumeral a = false) :
+    ¬ ((lex (a.render ++ b.render)).err = none ∧ lexTV (a.render ++ b.render) = twoTokens a b) :=
+  needSep_necessary a b ha hb hn (by intro n h; rw [h] at hg; simp [isNumeral] at hg)
+
+example : (RTok.name [105, 102]).wf = false ∧ (RTok.kw "if").wf = true ∧ (RTok.sym [61]).wf = true ∧
+    needSep (.kw "if") (.name [120]) = true ∧ needSep (.sym [61]) (.sym [61, 61]) = true ∧
+    needSep (.sym [91]) (.lstr 0 [] [120]) = true ∧ needSep (.sym [46, 46]) (.num (.flt [] (some [53]) none)) = true ∧
+    needSep (.name [120]) (.sym [61]) = false := by decide +kernel
+
+/-! ### the `PNewLine` flag -/
+
+/-- the expected flags of `render toks lay`: `Lexer.PNewLine` is true exactly at a token that starts with `(` and
+    directly follows a token of type `)` when a line terminator stands between them (the reference parser's
+    "ambiguous syntax (function call x new statement)" test looks at just that). -/
+def expectPnl (toks : List RTok) (lay : Layout) : List Bool := pnlFrom lay 0 0 toks
+
+/-- **pnewline_full** — for every well-formed token list and layout (outside the `--[=` class) the scanner's
+    `PNewLine` flags are the expected ones. -/
+def pnewline_full : Prop :=
+  ∀ (toks : List RTok) (lay : Layout), WF toks lay = true → noBracketEq lay toks.length = true →
+    (lex (render toks lay)).toks.map (fun p => p.2) = expectPnl toks lay
+
+/-- **pnewline_full_fails** — false of the scanner (known finding `C08-comment-hides-newline-before-paren`): in
+    `)` LF `--c` LF `(` the `(` stands two lines below the `)`, but `Scan` recomputes the flag after the comment
+    (`goto redo`) from the empty run of blanks behind it and delivers `false`. -/
+theorem pnewline_full_fails : ¬ pnewline_full := by
+  intro h
+  have := h pnlWitnessToks pnlWitnessLayout (by decide +kernel) (by decide +kernel)
+  rw [pnlWitness_flags] at this
+  exact absurd this (by decide +kernel)
+
+/-- **pnewline_partial** — guarded version: when no comment stands between a `)` and a `(` (`pnlGuard`, decidable;
+    comments anywhere else are fine), the flags are the expected ones: the flag says whether a line end separates the
+    `)` from the `(`, whatever blanks are used. -/
+theorem pnewline_partial (toks : List RTok) (lay : Layout) (hwf : WF toks lay = true)
+    (hg : noBracketEq lay toks.length = true) (hp : pnlGuard lay 0 0 toks = true) :
+    (lex (render toks lay)).toks.map (fun p => p.2) = expectPnl toks lay := by
+  have hw := wfFrom_wf lay toks 0 none hwf
+  have hT : ∀ t ∈ toks, ∀ r, follow t r = true → TokScan t r :=
+    fun t ht r hf => tokScan_all t (hw t ht) r hf
+  have hG : ∀ j, 0 ≤ j → j ≤ 0 + toks.length → GapScan (lay j) := by
+    intro j _ hj x hx hxw hc r hr
+    have : bracketEq x = false := by
+      simp only [noBracketEq, List.all_eq_true, List.mem_range, Bool.not_eq_true'] at hg
+      exact hg j (by omega) x hx
+    exact commentScan_all x hxw this hc r hr
+  exact lexAll_render_pnl (render toks lay) lay toks 0 none 0 (initSc (render toks lay)) hT hG hwf hp
+    (restInv_init _) rfl
+
+/-- non-vacuity: `f ( x )` CR LF `( g )` with a comment elsewhere: the guard holds and the flag of the second `(` is
+    expected to be true. -/
+example :
+    let toks : List RTok := [.name [102], .sym [40], .name [120], .sym [41], .sym [40], .name [103], .sym [41]]
+    let lay : Layout := fun j => if j = 4 then [.blank 13, .blank 10] else if j = 2 then [.long 1 [10]] else []
+    WF toks lay = true ∧ noBracketEq lay toks.length = true ∧ pnlGuard lay 0 0 toks = true ∧
+      expectPnl toks lay = [false, false, false, false, true, false, false, false] := by
+  decide +kernel
+
+/-! ### long brackets, full -/
+
+/-- **long_bracket_denotes** — long brackets of any level and *any* content (this is `long_bracket_denotes_partial`
+    without its guard): with the scanner just past the first `[`, the text `=ⁿ[ body ]=ⁿ]` — where no closing bracket
+    of level n starts inside the body (`noClose`, i.e. the bracket really ends there) — is read as the body without
+    its first line terminator and with every other line terminator normalised to LF, and scanning stops right
+    behind the closing bracket. -/
+theorem long_bracket_denotes (n : Nat) (body r : List UInt8) (hnc : noClose n body = true) (s : Sc)
+    (hs : s.rest = List.replicate n 61 ++ 91 :: (body ++ (closer n ++ r))) :
+    ∃ s', scanMultilineString (next s).1 [] (next s).2 = .ok (normNL (dropFirstNL body), s') ∧ s'.rest = r := by
+  obtain ⟨s', h1, h2⟩ := long_bracket_full n body r hnc [] s hs
+  exact ⟨s', by simpa using h1, h2⟩
+
+example : noClose 1 [13, 10, 93, 93, 61, 13, 93] = true ∧
+    normNL (dropFirstNL [13, 10, 93, 93, 61, 13, 93]) = [93, 93, 61, 10, 93] := by
+  constructor
+  · decide +kernel
+  · simp [dropFirstNL, nlRest, normNL]
 
 end GLua.Props.C08
